@@ -146,6 +146,8 @@ func init() {
 		goImportsUsed(w, wc, r, "C07")
 		computedFieldsSingle(w, r, "C07")
 		attributeRefusalReported(w, r, "C07")
+		c07PresentChildModelled(w, r, w.ctxTable())
+		collectedIsUsed(w, r, "C07")
 		c12OptionValidation(w, r, "C07") // a value outside the documented list reaches the type tables as a missing row: empty type names in the output
 		wireTemplateTaint(w, wc, r, "C07", []string{"go", "rust", "java", "python", "cpp", "lua"})
 		wireAssumptions(r)
